@@ -518,7 +518,14 @@ func TestC19_Outage(t *testing.T) {
 			}()
 		}
 		wg.Wait()
-		log.Destroy()
+		for i, o := range outs { // a call that never returned: report it before anything else can wait for it
+			if o.err != nil && strings.Contains(o.err.Error(), "VERIF-HANG") {
+				vk.HardFail("c19-hang", map[string]any{"timeline": tls[i]}, "C19: %v; time-line: %s", o.err, tls[i])
+			}
+		}
+		if done, p := vk.Within(30*time.Second, log.Destroy); !done || p != nil {
+			vk.HardFail("c19-hang", map[string]any{"timelines": tls}, "C19: Destroy after the outage time-lines blocked or panicked (%v)", p)
+		}
 		for i, o := range outs {
 			vk.Eval()
 			vk.Class(fmt.Sprintf("outage:writers:%d", tls[i].Writers))
